@@ -36,9 +36,11 @@ import factory_lib as L  # noqa: E402
 
 CID = "C18"
 AREA = "factory"
-VO = ["props/C18.vo", "factory/FacModel.vo", "factory/FacSpec.vo", "factory/FacEq.vo",
-      "factory/FacEqThm.vo", "factory/FacThm.vo"]
+VO = ["props/C18.vo", "factory/FacModel.vo", "factory/FacSpec.vo", "factory/FacObs.vo", "factory/FacEq.vo"]
 M_RUN, M_RUN_OLD, M_SPEC, M_ZEQ = 0, 1, 2, 3
+# C18_OLD_MODEL=1: one-off experiment (not part of the registered check): validate a scratch copy of
+# the PRE-e7e8908 tzoffset factory (VERIF_REPO=...) against `step_old`, tzoffset-only scenarios
+OLD_MODEL = os.environ.get("C18_OLD_MODEL") == "1"
 
 
 # --------------------------------------------------------------------------------------
@@ -253,6 +255,16 @@ def scenarios(w):
     g = ent(L.FGET, ("Europe/London",))
     n3 = ent(L.FGET, ("UTC+3",))
     bad = ent(L.FSTR, ("5",))
+    g5 = ent(L.FGET, ("5",))
+    gq = ent(L.FGET, ("QQQ",))
+    gb = ent(L.FGET, (b"UTC",))
+    extra = [
+        ("gettz(name) whose tzstr(name) raises against tzstr", [[mk_call(w, g5, 0)], [mk_call(w, s, 10)]]),
+        ("gettz -> tzlocal (never cached) against gettz", [[mk_call(w, gq, 0)], [mk_call(w, g, 10)]]),
+        ("gettz(bytes) raising under the lock against gettz", [[mk_call(w, gb, 0)], [mk_call(w, g, 10)]]),
+        ("set_cache_size(-1) raising under the lock against gettz", [[("size", -1)], [mk_call(w, g, 10)]]),
+        ("instance() against call", [[mk_instance(w, a, 0), mk_call(w, a, 1)], [mk_call(w, a, 10)]]),
+    ]
     return [
         ("tzoffset same fresh key", [[mk_call(w, a, 0)], [mk_call(w, a2, 10)]]),
         ("tzstr same fresh key", [[mk_call(w, s, 0)], [mk_call(w, s, 10)]]),
@@ -263,7 +275,7 @@ def scenarios(w):
         ("tzstr raising constructor against call", [[mk_call(w, bad, 0)], [mk_call(w, s, 10)]]),
         ("gettz against set_cache_size(0)", [[mk_call(w, g, 0)], [("size", 0), mk_call(w, g, 10)]]),
         ("tzutc twice", [[("utc", 0)], [("utc", 10)]]),
-    ]
+    ] + extra
 
 
 # --------------------------------------------------------------------------------------
@@ -322,13 +334,43 @@ def check_properties(w, progs, returns, excs, o):
 # --------------------------------------------------------------------------------------
 # one sequential case / one threaded case (run in worker processes)
 
+class SeqHang(BaseException):
+    pass
+
+
+def _alarm(_sig, _frm):
+    raise SeqHang()
+
+
 def case_sequential(cfg, prog, want_samples=False):
+    import signal
     w = CTX.world(cfg)
     o = CTX.orc()
+    hang = None
     with TzPaths(w, cfg):
         w.reset()
-        snaps, returns, excs = L.run_sequential(w, prog)
+        # watchdog: a call that blocks on a real lock (self-deadlock) is interrupted, not waited for
+        old = signal.signal(signal.SIGALRM, _alarm)
+        signal.alarm(120 if HANGS[0] < 2 else 5)
+        try:
+            snaps, returns, excs = L.run_sequential(w, prog)
+        except SeqHang:
+            hang = "a sequential history did not finish in time (a call blocked on a factory lock)"
+            HANGS[0] += 1
+            snaps, returns, excs = [], [], []
+        finally:
+            signal.alarm(0)
+            signal.signal(signal.SIGALRM, old)
+        if hang:
+            # the factory locks may be left held: replace them so that later cases can run
+            from six.moves import _thread
+            for f in (L.FOFF, L.FSTR, L.FGET):
+                oo, aa = w.lock_attr(f)
+                setattr(oo, aa, _thread.allocate_lock())
         w.reset()
+    if hang:
+        return {"diff": hang, "props": [("hang", {"what": hang})], "nops": len(prog), "nret": 0, "nexc": 0,
+                "model_spec": 1, "hits": 0, "max_lru": 0, "distinct_keys": 0}
     out = o.call(M_RUN, L.enc_scenario([prog], [0] * (24 * len(prog) + 8), verbose=False))
     recs, tail = L.parse_trace(out)
     bnd = [r for r in recs if r["pc1"] == 0]
@@ -399,6 +441,9 @@ def make_pick(spec, rnd):
     return pick
 
 
+HANGS = [0]
+
+
 def case_threads(cfg, progs, spec, seed_tag, utc_fresh=False):
     w = CTX.world(cfg)
     o = CTX.orc()
@@ -410,7 +455,9 @@ def case_threads(cfg, progs, spec, seed_tag, utc_fresh=False):
         w.utc_cls = type("tzutc_fresh", (w.tz.tzutc,), {})
     with TzPaths(w, cfg):
         w.reset()
-        s = L.Sched(w, progs, table)
+        # generous timeout (the machine may be heavily loaded); after two hangs in this process
+        # further cases wait only 10 s, so a genuinely hanging implementation cannot stall the check
+        s = L.Sched(w, progs, table, timeout=90.0 if HANGS[0] < 2 else 10.0)
         inner = make_pick(spec, rnd)
 
         def pick(sc):
@@ -423,6 +470,7 @@ def case_threads(cfg, progs, spec, seed_tag, utc_fresh=False):
             trace = s.run(pick)
         except L.Hang as ex:
             res["hang"] = str(ex)
+            HANGS[0] += 1
             trace = s.trace
         finally:
             w.utc_cls = saved_utc
@@ -431,7 +479,8 @@ def case_threads(cfg, progs, spec, seed_tag, utc_fresh=False):
     res["sched"] = sched
     res["nsteps"] = len(trace)
     res["blocked_steps"] = sum(r["blocked"] for r in trace)
-    out = o.call(M_RUN, L.enc_scenario(progs, sched, verbose=True, single0=0 if utc_fresh else -1))
+    out = o.call(M_RUN_OLD if OLD_MODEL else M_RUN,
+                 L.enc_scenario(progs, sched, verbose=True, single0=0 if utc_fresh else -1))
     recs, tail = L.parse_trace(out)
     rn = L.Renamer()
     if len(recs) != len(trace):
@@ -666,6 +715,35 @@ def glue_checks(verdict, o):
 
 # --------------------------------------------------------------------------------------
 
+def run_input(inp):
+    """re-run a recorded case (replay file / regression corpus line) on implementation, model and spec"""
+    cfg = inp.get("config", "paths")
+    w = CTX.world(cfg)
+    if inp["mode"] == "sequential":
+        prog = [op_from_json(w, j) for j in inp["program"]]
+        r = case_sequential(cfg, prog)
+        r["input"] = {"mode": "sequential", "config": cfg, "program": [op_json(w, op) for op in prog]}
+        return r
+    progs = [[op_from_json(w, j) for j in p] for p in inp["programs"]]
+    it = iter(list(inp["schedule"]))
+
+    def pick(s):
+        for t in it:
+            if t in s.unfinished():
+                return t
+        u = [t for t in s.unfinished() if s.runnable(t)]
+        return u[0] if u else None
+    global make_pick
+    saved = make_pick
+    make_pick = lambda spec, rnd: pick  # noqa: E731
+    try:
+        r = case_threads(cfg, progs, ("replay",), "replay", utc_fresh=bool(inp.get("utc_fresh")))
+    finally:
+        make_pick = saved
+    r["input"] = dict(inp, schedule=r["sched"])
+    return r
+
+
 def replay(path):
     data = json.load(open(path))
     C.ensure_built([AREA], VO)
@@ -673,31 +751,13 @@ def replay(path):
     if not isinstance(inp, dict) or "mode" not in inp:
         print("replay names a broken obligation / glue check, no schedule:", json.dumps(data, indent=1)[:3000])
         return 0
-    cfg = inp.get("config", "paths")
-    w = CTX.world(cfg)
+    r = run_input(inp)
+    print("input      ", json.dumps(inp)[:2000])
     if inp["mode"] == "sequential":
-        prog = [op_from_json(w, j) for j in inp["program"]]
-        r = case_sequential(cfg, prog)
-        print("input      ", json.dumps(inp)[:2000])
         print("impl/model ", "states agree after every operation" if not r["diff"] else r["diff"])
-        print("spec       ", r["props"] or "holds on the identities the implementation returned")
     else:
-        progs = [[op_from_json(w, j) for j in p] for p in inp["programs"]]
-        sched = list(inp["schedule"])
-        it = iter(sched)
-
-        def pick(s):
-            for t in it:
-                if t in s.unfinished():
-                    return t
-            u = [t for t in s.unfinished() if s.runnable(t)]
-            return u[0] if u else None
-        global make_pick
-        make_pick = lambda spec, rnd: pick  # noqa: E731
-        r = case_threads(cfg, progs, ("replay",), "replay", utc_fresh=bool(inp.get("utc_fresh")))
-        print("input      ", json.dumps(inp)[:2000])
         print("impl/model ", "every step is a step of the transition system" if not r["diff"] else r["diff"])
-        print("spec       ", r["props"] or "holds on the identities the implementation returned")
+    print("spec       ", r["props"] or "holds on the identities the implementation returned")
     return 0
 
 
@@ -713,21 +773,23 @@ def main():
         C.ensure_built([AREA], VO)
     except C.BuildError as ex:
         build_err = ex
+    t_build = time.time() - t0
     if build_err is not None:
         props = {"obligations": 0, "discharged": 0, "theorems": [], "assumptions": {},
                  "cmd": "coqc props/C18.v", "log": build_err.log, "ok": False}
     else:
         props = C.compile_props(CID)
+    t_props = time.time() - t0 - t_build
 
     quick = tier == "quick"
-    nproc = 4 if quick else 12
-    n_seq = 300 if quick else 12000
-    n_rand = 120 if quick else 5000
+    nproc = 8 if quick else 14
+    n_seq = 300 if quick else 8000
+    n_rand = 100 if quick else 4000
     tasks = []
     for i in range(n_seq):
         tasks.append(("seq", "paths" if i % 5 else "nopaths", i))
     w = CTX.world("paths")
-    nsc = len(scenarios(w))
+    nsc = 9 if quick else len(scenarios(w))   # the last five scenarios run in the thorough tier only
     a_max = 12 if quick else 30
     for sc in range(nsc):
         for first in (0, 1):
@@ -749,13 +811,30 @@ def main():
                           concrete=False)
         tasks = [t for t in tasks if t[0] == "seq"]
 
+    # regression corpus (minimised earlier failures) runs first, in this process
+    results = []
+    reg_path = os.path.join(C.VERIF, "corpus", "regressions", "C18.jsonl")
+    n_reg = 0
+    if table_ok and os.path.exists(reg_path):
+        for i, line in enumerate(open(reg_path)):
+            line = line.strip()
+            if not line or line.startswith("#"):
+                continue
+            try:
+                r = run_input(json.loads(line)["input"])
+            except Exception as ex:
+                r = {"diff": "regression case failed to run: %r" % (ex,), "props": [], "input": {"line": i}, "failed": True}
+            r["task"] = ("reg", i)
+            results.append(r)
+            n_reg += 1
+
     import multiprocessing as mp
     ctxmp = mp.get_context("fork")
     # the parent's oracle process must not be shared with forked children
     if CTX.oracle is not None:
         CTX.oracle.close()
         CTX.oracle = None
-    results = []
+    t_pool0 = time.time()
     with ctxmp.Pool(nproc) as pool:
         for r in pool.imap_unordered(worker, tasks, chunksize=4):
             if isinstance(r, list):
@@ -763,6 +842,7 @@ def main():
             else:
                 results.append(r)
 
+    t_pool = time.time() - t_pool0
     stats = {"sequential": 0, "sequential_ops": 0, "systematic": 0, "random": 0, "utcfresh": 0, "steps": 0,
              "blocked_steps": 0, "returns": 0, "returns_hit": 0, "exceptions_expected": 0,
              "histories_exceeding_lru": 0, "traces_validated": 0, "diffs": 0, "prop_violations": 0,
@@ -770,6 +850,14 @@ def main():
     seen_sys = set()
     samples = []
     hist = {}
+    distinct = set()      # hashes of distinct cases in which at least one cached-path call returned
+    pending = []          # (concrete?, payload): submitted concrete first (only 5 replays are printed)
+
+    class _Collect:
+        @staticmethod
+        def violation(payload, concrete=True):
+            pending.append((concrete, payload))
+    real_verdict, verdict = verdict, _Collect
     for r in results:
         kind = r["task"][0]
         if kind == "sys" or kind == "utcfresh":
@@ -786,6 +874,10 @@ def main():
                 stats["histories_exceeding_lru"] += 1
             for j in r.get("input", {}).get("program", []):
                 hist[j[0]] = hist.get(j[0], 0) + 1
+        elif kind == "reg":
+            stats["regression"] = stats.get("regression", 0) + 1
+            if r.get("input", {}).get("mode") == "threads" and not r.get("diff"):
+                stats["traces_validated"] += 1
         else:
             stats[{"sys": "systematic", "rand": "random", "utcfresh": "utcfresh"}[kind]] += 1
             stats["steps"] += r.get("nsteps", 0)
@@ -793,6 +885,9 @@ def main():
             if not r.get("diff") and not r.get("failed"):
                 stats["traces_validated"] += 1
         stats["returns"] += r.get("nret", 0)
+        if r.get("nret", 0) > 0 and not r.get("failed"):
+            import hashlib
+            distinct.add(hashlib.sha1(json.dumps(r.get("input"), sort_keys=True, default=str).encode()).hexdigest())
         if r.get("model_spec") == 0:
             stats["model_spec_false"] += 1
             verdict.violation({"kind": "the extracted model's own history violates the spec (theorem contradicted)",
@@ -819,6 +914,9 @@ def main():
             samples.append({"input": r["input"], "steps": r["nsteps"], "blocked_steps": r["blocked_steps"],
                             "result": "every step validated against the extracted transition system"})
 
+    verdict = real_verdict
+    for concrete, payload in sorted(pending, key=lambda x: (not x[0])):
+        verdict.violation(payload, concrete=concrete)
     glue = {}
     if build_err is None:
         try:
@@ -833,11 +931,13 @@ def main():
     rc = verdict.finish()
     n_thread_runs = stats["systematic"] + stats["random"] + stats["utcfresh"]
     cov = {
-        "evaluations": stats["sequential"] + n_thread_runs,
-        "distinct_nontrivial": stats["sequential"] + n_thread_runs,
-        "rule": "a case is a sequential history (distinct by construction from (seed, index)) or a distinct "
-                "realised thread schedule; systematic schedules are de-duplicated by their realised tid sequence; "
-                "non-trivial = at least one factory call completed",
+        "evaluations": stats["sequential"] + n_thread_runs + n_reg,
+        "regression_corpus_cases": n_reg,
+        "distinct_nontrivial": len(distinct),
+        "rule": "a case is a sequential history (programs generated from (seed, index)) or (programs, realised "
+                "thread schedule); distinct = distinct SHA-1 of the canonical JSON of programs+schedule (systematic "
+                "schedules are additionally de-duplicated by their realised tid sequence before counting); "
+                "non-trivial = at least one cached-path factory call returned an object in that case",
         "traces_validated_against_impl": stats["traces_validated"],
         "thread_runs": {"systematic_le2_preemptions_2_threads": stats["systematic"],
                         "random_3_4_threads": stats["random"], "fresh_singleton_subclass": stats["utcfresh"],
@@ -853,13 +953,19 @@ def main():
         "model_vs_impl_disagreements": stats["diffs"],
         "spec_vs_impl_violations": stats["prop_violations"],
         "glue": glue,
-        "partial_theorems": ["C18_retention_only_guarded (guard: no gettz.cache_clear between the two calls; "
-                             "see C18_retention_cache_clear_refuted and finding F-C18-a)"],
+        "partial_theorems": ["C18_retention_only_guarded (guard: no gettz.cache_clear in the programs; the unguarded "
+                             "statement is refuted: C18_retention_cache_clear_refuted, finding F-C18-a); "
+                             "C18_factory_identity carries the same guard as 'same cache epoch'"],
+        "refuted_theorems": ["C18_retention_cache_clear_refuted (current code, F-C18-a)",
+                             "C18_old_factory_identity_refuted (code before /repo e7e8908: what the fix bought)",
+                             "C18_singleton_uninitialised_refuted (a _TzSingleton class not instantiated at import)"],
         "differential_only": ["copy/deepcopy/pickle protocols 0-%d" % pickle.HIGHEST_PROTOCOL,
                               "name resolution inside GettzFunc.nocache (classified by probing, not modelled)",
                               "weakref finaliser timing / pre-emption inside a source line / free-threaded CPython"],
         "known_findings_hit": verdict.known_hits,
         "line_table_ok": table_ok,
+        "phase_seconds": {"build_incl_waiting_for_the_global_build_lock": round(t_build, 1),
+                          "props_compile": round(t_props, 1), "correspondence_pool": round(t_pool, 1)},
     }
     C.write_evidence(CID, tier, t0, props, cov,
                      ["WeakValueDictionary contract: an entry is visible iff its referent is strongly referenced; "
@@ -869,10 +975,10 @@ def main():
                       "line-level scheduler + line classification by source text (harness/factory_lib.py)"],
                      len(verdict.violations))
     print("C18 %s: obligations %d/%d, %d sequential histories, %d thread runs (%d validated, %d steps), "
-          "diffs %d, property violations %d, known %r, %.1fs" % (
+          "diffs %d, property violations %d, known %r, build %.0fs props %.0fs pool %.0fs, %.1fs" % (
               tier, props["discharged"], props["obligations"], stats["sequential"], n_thread_runs,
               stats["traces_validated"], stats["steps"], stats["diffs"], stats["prop_violations"],
-              verdict.known_hits, time.time() - t0))
+              verdict.known_hits, t_build, t_props, t_pool, time.time() - t0))
     return rc
 
 
